@@ -136,9 +136,9 @@ def _analyse_sanitiser(fn):
 
 
 def run(ck):
-    ck.rule("R1", "a guest->host path function makes '..' components harmless (idiom A, B or C)", floor=3)
+    ck.rule("R1", "a guest->host path function makes '..' components harmless (idiom A, B or C)", floor=1)
     ck.rule("R1s", "link resolution before the containment test covers every path component", floor=1)
-    ck.rule("R2", "every host file-system call in os_dep takes a sanitised path", floor=30)
+    ck.rule("R2", "every host file-system call in os_dep takes a sanitised path", floor=15)
 
     san_names = set()
     for rel, q in SANITISERS:
@@ -157,7 +157,7 @@ def run(ck):
                   "inside the sandbox pointing outside is traversed by the host open()" % q)
 
     # ------------------------------------------------------------------ R1j: no joined component can be absolute
-    ck.rule("R1j", "no component joined after the base can contain '/': os.path.join drops the base when a component is absolute", floor=2)
+    ck.rule("R1j", "no component joined after the base can contain '/': os.path.join drops the base when a component is absolute", floor=1)
     from sa.astutil import straightline_env, clone
     for rel, q in SANITISERS:
         m = ck.repo.mod(rel)
